@@ -75,7 +75,13 @@ def build_case(case):
             u = 2 * K - under if (name == other_name(case) and case.get("book") == "other-first") else under
             instrs.append(db.instrument(name, kind, K, exp, mark, u, asks, bids))
         hours.append((ts, instrs))
+        if case["co"] == "uni":
+            # the collector also took a snapshot at half past the hour; the history is thinned to the hour below
+            hours.append((ts + timedelta(minutes=30), [dict(x) for x in instrs]))
     data = db.frame(hours)
+    if case["co"] == "uni":
+        # rows filtered with a boolean mask: the frame's MultiIndex still lists the dropped :30 times among its (now unused) level values
+        data = data[data.index.get_level_values(0).minute == 0]
     return data, expiry, settle_h
 
 
